@@ -30,6 +30,9 @@ type op struct {
 	Dt   uint64  `json:"dt,omitempty"`
 	Pick int     `json:"pick,omitempty"`
 	V    float64 `json:"v,omitempty"`
+	// reload: the complete new rule list (a small edit of the current one: one strategy flipped, one trigger
+	// changed, a rule dropped / added, or the identical list in fresh objects)
+	Rules []ruleD `json:"rules,omitempty"`
 }
 
 type caseDesc struct {
@@ -45,8 +48,10 @@ var inflight int64
 
 func genCase(rng *rand.Rand) *caseDesc {
 	c := &caseDesc{}
-	for i, n := 0, rng.Intn(4); i < n; i++ {
-		r := ruleD{ID: fmt.Sprintf("s%d", i), Metric: rng.Intn(5), BBR: rng.Intn(2) == 0, Valid: true}
+	nextID := 0
+	genRule := func() ruleD {
+		r := ruleD{ID: fmt.Sprintf("s%d", nextID), Metric: rng.Intn(5), BBR: rng.Intn(2) == 0, Valid: true}
+		nextID++
 		switch r.Metric {
 		case 0:
 			r.Trigger = vk.PickF(rng, 0.5, 1, 4)
@@ -72,11 +77,47 @@ func genCase(rng *rand.Rand) *caseDesc {
 				r.Trigger = 1.5
 			}
 		}
-		c.Rules = append(c.Rules, r)
+		return r
 	}
+	for i, n := 0, rng.Intn(4); i < n; i++ {
+		c.Rules = append(c.Rules, genRule())
+	}
+	cur := append([]ruleD(nil), c.Rules...)
 	for i, n := 0, 30+rng.Intn(120); i < n; i++ {
 		var o op
-		switch k := rng.Intn(20); {
+		switch k := rng.Intn(21); {
+		case k == 20:
+			o.K = "reload"
+			nl := append([]ruleD(nil), cur...)
+			switch e := rng.Intn(6); {
+			case e == 0 && len(nl) > 0: // only the strategy of one rule changes
+				j := rng.Intn(len(nl))
+				nl[j].BBR = !nl[j].BBR
+			case e == 1 && len(nl) > 0: // only the trigger of one rule changes
+				j := rng.Intn(len(nl))
+				if nl[j].Valid {
+					nl[j].Trigger = nl[j].Trigger*vk.PickF(rng, 0.5, 2) + vk.PickF(rng, 0, 0.25)
+					if nl[j].Metric == 4 && nl[j].Trigger > 1 {
+						nl[j].Trigger = 1
+					}
+				}
+			case e == 2 && len(nl) > 0:
+				j := rng.Intn(len(nl))
+				nl = append(nl[:j], nl[j+1:]...)
+			case e == 3 && len(nl) < 4:
+				nl = append(nl, genRule())
+			case e == 4:
+				nl = nil
+				for j, m := 0, rng.Intn(3); j < m; j++ {
+					nl = append(nl, genRule())
+				}
+			default: // identical list, fresh objects
+			}
+			o.Rules = nl
+			if o.Rules == nil {
+				o.Rules = []ruleD{}
+			}
+			cur = append([]ruleD(nil), nl...)
 		case k < 8:
 			o.K = "in"
 		case k < 10:
@@ -109,15 +150,20 @@ var caseNo int
 
 func runCase(idx int, c *caseDesc) {
 	caseNo++
-	var rules []*system.Rule
-	for _, r := range c.Rules {
-		st := system.NoAdaptive
-		if r.BBR {
-			st = system.BBR
+	inForce := c.Rules
+	loadRules := func(l []ruleD) {
+		rules := []*system.Rule{}
+		for _, r := range l {
+			st := system.NoAdaptive
+			if r.BBR {
+				st = system.BBR
+			}
+			rules = append(rules, &system.Rule{ID: r.ID, MetricType: system.MetricType(r.Metric), TriggerCount: r.Trigger, Strategy: st})
 		}
-		rules = append(rules, &system.Rule{ID: r.ID, MetricType: system.MetricType(r.Metric), TriggerCount: r.Trigger, Strategy: st})
+		system.LoadRules(rules)
+		inForce = l
 	}
-	system.LoadRules(rules)
+	loadRules(c.Rules)
 	defer system.ClearRules()
 	load, cpu := 0.0, 0.0
 	system_metric.SetSystemLoad(0)
@@ -139,6 +185,9 @@ func runCase(idx int, c *caseDesc) {
 		switch o.K {
 		case "adv":
 			clk.AddMs(o.Dt)
+		case "reload":
+			loadRules(o.Rules)
+			run.Count("reloads", 1)
 		case "load":
 			load = o.V
 			system_metric.SetSystemLoad(o.V)
@@ -182,7 +231,7 @@ func runCase(idx int, c *caseDesc) {
 			maxComplete := float64(inb.MaxBucket(ref.EvComplete, now, 1000)) * 2
 			bbrOK := !(inflight > 1 && float64(inflight) > maxComplete*minRt/1000.0) // capacity not exceeded
 			violated := map[string]string{}
-			for _, r := range c.Rules {
+			for _, r := range inForce {
 				if !r.Valid {
 					continue
 				}
@@ -266,7 +315,7 @@ func main() {
 	sx.Quiet()
 	run = vk.Start("C07", "seq")
 	defer run.Finish()
-	run.Rule("case = 0-3 system rules over the five metric types and both strategies (some invalid), 30-150 ops: inbound / outbound requests (overlapping), completions, clock advances around bucket boundaries, injected load / cpu readings around the triggers; for every inbound request the set of violated rules is computed from the monitor's own log (aligned-window reference of the inbound totals) and the decision must be block iff that set is non-empty, with a triggered rule from the set; outbound requests must never be blocked; distinct by (decision trace, rules) with a pass and a block.")
+	run.Rule("case = 0-3 system rules over the five metric types and both strategies (some invalid), 30-150 ops: inbound / outbound requests (overlapping), completions, clock advances around bucket boundaries, injected load / cpu readings around the triggers, reloads of a slightly edited rule list (one strategy flipped, one trigger changed, rule dropped / added, identical list); for every inbound request the set of violated rules is computed from the monitor's own log (aligned-window reference of the inbound totals) and the decision must be block iff that set is non-empty, with a triggered rule from the set; outbound requests must never be blocked; distinct by (decision trace, rules) with a pass and a block.")
 	run.Assume("only system rules are loaded (passing this stage = admitted)", "rule iteration order across metric types is a map order: any violated rule is accepted as the triggered one", "virtual clock later than the real time at which the process-global inbound node was created")
 	clk = vclock.New(1900000000000)
 	n := run.N(400, 12000)
